@@ -1,9 +1,257 @@
 (* C19 — emissions follow their schedule however time is cut into blocks.
-   Property theorems only; proofs are in Proofs/Emissions.v. *)
-From Kava Require Import Base.Prelude Base.Dec Model.Emissions.
+   Property theorems only; proofs are in Proofs/Emissions.v.
+
+   Reading guide.  A history is a list of operations (blocks at given block
+   times, community-pool deposits/spends, reward-rate updates, ...); [run_outs]
+   runs it on the model, skipping operations that fail, and returns the final
+   state with the per-operation outputs.  Sums over the outputs:
+   [paid_sum] coins paid to the fee collector; [sched_sum] = sum over the paying
+   blocks of (nanoseconds since the last accumulation) * (rate in force), i.e.
+   rate * elapsed time scaled by 10^18 * 10^9; [rem_sum] what QuoInt64 dropped;
+   [loss_sum] what the cap to the pool balance dropped.  [mono now ops]: block
+   times are positive and never decrease.  [InvT now s]: the store invariant
+   (error in [0,1), rates and balances non-negative) and stored times <= now. *)
+From Kava Require Import Base.Prelude Base.Dec Model.Emissions Proofs.Emissions.
 Local Open Scope Z_scope.
 
-(* placeholder non-vacuity example while the proofs are being written *)
-Example C19_model_runs :
-  calc_staking_rewards 3 0 0 333333333333333333500000000 (dec_of_int 5) = (1, 500000000 / NS - 0).
+(** ** Staking rewards *)
+
+(* The invariant holds after every history, and the accounting is exact:
+   10^9 * (10^18 * paid + carried error) + QuoInt64 dust + pool-cap loss
+     = 10^9 * carried-in error + sum(rate_i * gap_i),
+   and the pool balance moves by exactly deposits - payouts. *)
+Theorem C19_staking_accounting_all_histories :
+  forall ops now s sf outs,
+  InvT now s -> mono now ops -> run_outs s ops = (sf, outs) ->
+  Inv sf /\ Forall pay_good (pays outs) /\
+  NS * (PREC * paid_sum outs + sr_err sf) + rem_sum outs + loss_sum outs = NS * sr_err s + sched_sum outs /\
+  pool sf = pool s + adj_sum outs - paid_sum outs.
+Proof. exact run_facts. Qed.
+Print Assumptions C19_staking_accounting_all_histories.
+
+(* However the interval is cut into blocks, the total paid (plus the error still
+   carried) never exceeds rate * elapsed (plus the error carried in). *)
+Theorem C19_staking_rewards_upper :
+  forall ops now s sf outs,
+  InvT now s -> mono now ops -> run_outs s ops = (sf, outs) ->
+  NS * PREC * paid_sum outs + NS * sr_err sf <= NS * sr_err s + sched_sum outs.
+Proof. exact staking_upper. Qed.
+Print Assumptions C19_staking_rewards_upper.
+
+Theorem C19_staking_rewards_upper_no_carry_in :
+  forall ops now s sf outs,
+  InvT now s -> mono now ops -> run_outs s ops = (sf, outs) -> sr_err s = 0 ->
+  NS * PREC * paid_sum outs <= sched_sum outs.
+Proof. exact staking_upper0. Qed.
+Print Assumptions C19_staking_rewards_upper_no_carry_in.
+
+(* Never above the pool balance: in every block, and in total. *)
+Theorem C19_staking_rewards_within_pool :
+  forall ops now s sf outs,
+  InvT now s -> mono now ops -> run_outs s ops = (sf, outs) ->
+  Forall (fun r => 0 <= p_paid r <= p_pool r) (pays outs) /\
+  0 <= pool sf /\ pool sf = pool s + adj_sum outs - paid_sum outs.
+Proof. exact staking_pool. Qed.
+Print Assumptions C19_staking_rewards_within_pool.
+
+(* With the trigger cleared and no rate update, the scheduled amount is
+   rate * (time of the last accumulation at the end - at the start). *)
+Theorem C19_schedule_is_rate_times_elapsed :
+  forall ops now s sf outs,
+  InvT now s -> mono now ops -> Forall no_rate_change ops -> c_upg s = 0 -> sr_last s <> 0 ->
+  run_outs s ops = (sf, outs) ->
+  sched_sum outs = (sr_last sf - sr_last s) * c_rate s /\ sr_last s <= sr_last sf.
+Proof. exact sched_const. Qed.
+Print Assumptions C19_schedule_is_rate_times_elapsed.
+
+(* Lower bound when the pool never binds: the shortfall is exactly the error
+   still carried plus the QuoInt64 dust, hence < 1 unit + n * 10^-18 for n
+   paying blocks (scaled: <= 10^9 * (10^18 - 1) + n * (10^9 - 1)). *)
+Theorem C19_staking_rewards_lower :
+  forall ops now s sf outs,
+  InvT now s -> mono now ops -> run_outs s ops = (sf, outs) -> never_capped outs ->
+  NS * sr_err s + sched_sum outs - NS * PREC * paid_sum outs = NS * sr_err sf + rem_sum outs /\
+  NS * sr_err s + sched_sum outs - NS * PREC * paid_sum outs <= NS * (PREC - 1) + (NS - 1) * npays outs.
+Proof. exact staking_lower. Qed.
+Print Assumptions C19_staking_rewards_lower.
+
+(* "Falls short by less than one unit" is false as stated: the QuoInt64
+   truncation is outside the carried error.  Witness: rate
+   333333333.3333333335 per second, three blocks one nanosecond apart, ample
+   pool, no error carried in: rate * elapsed = 1.0000000000000000005 units,
+   paid 0. *)
+Definition w_state : state :=
+  mk_state [1000000000000000000; 0; 333333333333333333500000000; 0; 0; 1000; 0; 0; 5000; 0; 0; 0; 0; 0] [] [].
+Definition w_ops : list op :=
+  [Block 1000000000000000001 0 0; Block 1000000000000000002 0 0; Block 1000000000000000003 0 0].
+
+Theorem C19_staking_rewards_lower_strict_refuted :
+  exists now s ops sf outs,
+  InvT now s /\ mono now ops /\ run_outs s ops = (sf, outs) /\ never_capped outs /\ sr_err s = 0 /\
+  paid_sum outs = 0 /\ sched_sum outs = NS * PREC + 500000000 /\
+  NS * PREC <= NS * sr_err s + sched_sum outs - NS * PREC * paid_sum outs.
+Proof.
+  exists 1000000000000000000, w_state, w_ops, (fst (run_outs w_state w_ops)), (snd (run_outs w_state w_ops)).
+  split; [|split; [|split; [|split; [|split; [|split; [|split]]]]]].
+  - split; [apply inv_b_iff; vm_compute; reflexivity|split; apply Z.leb_le; vm_compute; reflexivity].
+  - cbn [w_ops mono]. repeat split; first [apply Z.leb_le; vm_compute; reflexivity | apply Z.ltb_lt; vm_compute; reflexivity].
+  - destruct (run_outs w_state w_ops); reflexivity.
+  - vm_compute. repeat constructor.
+  - reflexivity.
+  - vm_compute; reflexivity.
+  - vm_compute; reflexivity.
+  - apply Z.leb_le; vm_compute; reflexivity.
+Qed.
+Print Assumptions C19_staking_rewards_lower_strict_refuted.
+
+(* The strict bound holds when no dust is dropped (block gaps of whole seconds,
+   or a rate that is a multiple of 10^-9). *)
+Theorem C19_staking_rewards_lower_strict_partial :
+  forall ops now s sf outs,
+  InvT now s -> mono now ops -> run_outs s ops = (sf, outs) -> never_capped outs ->
+  Forall (fun r => (p_gap r * p_rate r) mod NS = 0) (pays outs) ->
+  NS * sr_err s + sched_sum outs - NS * PREC * paid_sum outs < NS * PREC.
+Proof. exact staking_lower_strict. Qed.
+Print Assumptions C19_staking_rewards_lower_strict_partial.
+
+(* Partition independence: two ways of cutting the same scheduled amount into
+   blocks pay totals that differ by less than one unit plus 10^-18 per block. *)
+Theorem C19_partition_independence :
+  forall ops1 ops2 now s sf1 outs1 sf2 outs2,
+  InvT now s -> mono now ops1 -> mono now ops2 ->
+  run_outs s ops1 = (sf1, outs1) -> run_outs s ops2 = (sf2, outs2) ->
+  never_capped outs1 -> never_capped outs2 -> sched_sum outs1 = sched_sum outs2 ->
+  NS * PREC * Z.abs (paid_sum outs1 - paid_sum outs2) <=
+    NS * (PREC - 1) + (NS - 1) * Z.max (npays outs1) (npays outs2).
+Proof. exact partition_independence. Qed.
+Print Assumptions C19_partition_independence.
+
+(** ** The one-shot disable-inflation switch *)
+
+Lemma switch_due_iff t s : switch_due t s = true <-> c_upg s <> 0 /\ c_upg s <= t.
+Proof.
+  unfold switch_due. rewrite andb_true_iff, !negb_true_iff, Z.eqb_neq, Z.ltb_ge. tauto.
+Qed.
+
+(* The first block at or after the upgrade time zeroes x/mint inflation and the
+   community tax, deactivates kavadist, clears the trigger, installs the new
+   reward rate, and creates no ukava (x/mint and kavadist run after it). *)
+Theorem C19_disable_fires :
+  forall t m c s s' x, c_upg s <> 0 -> c_upg s <= t -> block t m c s = Ok s' x ->
+  c_rate s' = c_upg_rate s /\ c_upg s' = 0 /\ c_upg_rate s' = c_upg_rate s /\
+  m_min s' = 0 /\ m_max s' = 0 /\ d_tax s' = 0 /\ kd_active s' = false /\
+  supply s' = supply s /\ kdbal s' = kdbal s /\
+  (exists b, x = OBlock b /\ b_fired b = true /\ b_cons b = c /\ b_mint b = 0 /\ b_ws b = [] /\ b_wsi b = []).
+Proof. intros t m c s s' x H1 H2. apply block_fire. apply switch_due_iff. auto. Qed.
+Print Assumptions C19_disable_fires.
+
+(* Before the upgrade time (or with no upgrade time set) a block leaves those parameters alone. *)
+Theorem C19_disable_not_before :
+  forall t m c s s' x, (c_upg s = 0 \/ t < c_upg s) -> block t m c s = Ok s' x ->
+  c_rate s' = c_rate s /\ c_upg s' = c_upg s /\ c_upg_rate s' = c_upg_rate s /\
+  m_min s' = m_min s /\ m_max s' = m_max s /\ d_tax s' = d_tax s /\ kd_active s' = kd_active s /\
+  (exists b, x = OBlock b /\ b_fired b = false /\ b_cons b = 0).
+Proof.
+  intros t m c s s' x H. apply block_nofire.
+  destruct (switch_due t s) eqn:D; [|reflexivity]. apply switch_due_iff in D. lia.
+Qed.
+Print Assumptions C19_disable_not_before.
+
+(* Once off, every later history of blocks, pool movements, rate updates and
+   kavadist de-activations keeps inflation off: the trigger stays cleared,
+   x/mint stays at zero, kavadist stays inactive, the switch never fires
+   again, and not one ukava is created. *)
+Theorem C19_disable_stays_off :
+  forall ops s sf outs,
+  Forall chain_op ops -> off s -> run_outs s ops = (sf, outs) ->
+  off sf /\ supply sf = supply s /\ kdbal sf = kdbal s /\ fired_count outs = 0%nat.
+Proof. exact stays_off. Qed.
+Print Assumptions C19_disable_stays_off.
+
+(* Exactly once: in any history whatsoever the switch fires at most once. *)
+Theorem C19_disable_at_most_once :
+  forall ops s sf outs, run_outs s ops = (sf, outs) -> (fired_count outs <= 1)%nat.
+Proof. exact fires_at_most_once. Qed.
+Print Assumptions C19_disable_at_most_once.
+
+(** ** Kavadist *)
+
+(* Every stretch of time (in Unix seconds, the code's granularity) for which a
+   period is minted lies inside the period and inside the block interval
+   (prev, now]; each period is minted at most once per call; the coins minted
+   are exactly the compounding over those stretches. *)
+Theorem C19_kavadist_window :
+  forall now ps i prev sup sup' ws,
+  prev <= now -> mint_periods now ps i prev sup = Some (sup', ws) ->
+  Forall (fun w =>
+    (unix (p_start (w_per w)) <= w_from w /\ w_to w <= unix (p_end (w_per w)) /\
+     unix prev <= w_from w /\ w_from w <= w_to w /\ w_to w <= unix now) /\
+    In (w_per w) ps) ws /\
+  NoDup (map w_idx ws) /\ sup' = replay_ws sup ws.
+Proof.
+  intros now ps i prev sup sup' ws H1 H2.
+  destruct (mint_periods_windows now ps i prev sup sup' ws H1 H2) as (F & N & E & _).
+  repeat split; try assumption.
+  eapply Forall_impl; [|exact F]. intros w ((A & B & C & D & E' & F' & G & H) & I & _). repeat split; assumption.
+Qed.
+Print Assumptions C19_kavadist_window.
+
+(* The same inside a full begin block, for both period lists, with the supply accounted for. *)
+Theorem C19_kavadist_block_windows :
+  forall now t m c s s' x,
+  InvT now s -> head_ok now (Block t m c) -> block t m c s = Ok s' x ->
+  exists b, x = OBlock b /\
+    Forall (win_ok t (kd_prev s)) (b_ws b) /\ Forall (win_ok t (kd_prev s)) (b_wsi b) /\
+    NoDup (map w_idx (b_ws b)) /\ NoDup (map w_idx (b_wsi b)) /\
+    kd_prev s <= kd_prev s' <= t /\ (b_ws b ++ b_wsi b <> [] -> kd_prev s' = t) /\
+    supply s' = replay_ws (replay_ws (supply s + b_mint b) (b_ws b)) (b_wsi b).
+Proof. exact block_kd. Qed.
+Print Assumptions C19_kavadist_block_windows.
+
+(* Never twice for the same time: over any history, the windows minted in
+   different blocks do not overlap. *)
+Theorem C19_kavadist_never_twice :
+  forall ops now s sf outs,
+  InvT now s -> mono now ops -> run_outs s ops = (sf, outs) ->
+  Forall (Forall (fun w => unix (kd_prev s) <= w_from w)) (all_windows outs) /\
+  ForallOrdPairs later (all_windows outs).
+Proof. exact windows_ordered. Qed.
+Print Assumptions C19_kavadist_never_twice.
+
+(* A valid, non-deflationary schedule never makes the minting loop panic —
+   including periods that mint zero coins (two blocks in the same Unix second,
+   inflation 1.0). *)
+Theorem C19_kavadist_no_panic :
+  forall now ps i prev sup,
+  prev <= now -> 0 <= sup -> periods_ok ps -> mint_periods now ps i prev sup <> None.
+Proof. exact mint_periods_no_panic. Qed.
+Print Assumptions C19_kavadist_no_panic.
+
+(** ** Non-vacuity *)
+
+(* a one-hour period lying between two blocks ten days apart is minted for one hour *)
+Example C19_one_hour_period_in_ten_day_gap :
+  let t0 := 1704067200 * NS in let D := 86400 * NS in
+  let p := mkPeriod (t0 + 5 * D) (t0 + 5 * D + 3600 * NS) 1000000003022265980 in
+  exists sup' w, mint_periods (t0 + 10 * D) [p] 0 t0 1100000000000000 = Some (sup', [w]) /\
+    w_to w - w_from w = 3600 /\ w_amt w = 11968238370 /\ w_from w = unix (p_start p).
+Proof. cbv zeta. eexists. eexists. vm_compute. repeat split. Qed.
+
+(* zero seconds and inflation 1.0 mint nothing and do not panic *)
+Example C19_zero_amount_no_panic :
+  let t0 := 1704067200 * NS in
+  mint_periods (t0 + 5) [mkPeriod (t0 - NS) (t0 + 10 * NS) 1000000003022265980; mkPeriod (t0 + 20 * NS) (t0 + 30 * NS) PREC] 0 (t0 + 1) 1100000000000000
+    = Some (1100000000000000, [mkWin 0 (mkPeriod (t0 - NS) (t0 + 10 * NS) 1000000003022265980) (t0 + 1) 1704067200 1704067200 0]).
 Proof. vm_compute. reflexivity. Qed.
+
+(* the hypotheses of the history theorems are satisfiable by a state that pays, carries and switches *)
+Example C19_hypotheses_satisfiable :
+  let s := mk_state [1704067200000000000; 0; 744191500000000000000000; 1704067300000000000; 5000000000000000000;
+                     1000000000000; 0; 0; 1100000000000000; 70000000000000000; 200000000000000000; 20000000000000000; 1; 1704067200000000000]
+                    [mkPeriod 1703980800000000000 1729987200000000000 1000000003022265980] [] in
+  let ops := [Block 1704067206500000000 17 0; PoolAdj 5; Block 1704067300000000000 23 1000; Block 1704067306000000000 9 0] in
+  inv_b s = true /\
+  (let '(sf, outs) := run_outs s ops in
+   (paid_sum outs, fired_count outs, off sf = off sf, supply sf - supply s, c_rate sf))
+  = (4837244 + 465069688 + 30, 1%nat, eq_refl, 17 + 3616161, 5000000000000000000).
+Proof. cbv zeta. split; vm_compute; reflexivity. Qed.
